@@ -16,6 +16,16 @@ open WinTree WinRB
 
 abbrev Ev := Id × Rect
 
+/-- One invocation of an expose handler: the window, the rectangle it is handed and (ghost state, for the theorems)
+    the render buffer as the handler finds it. -/
+structure Shot where
+  win : Id
+  rect : Rect
+  rb : RB
+deriving Inhabited
+
+def Shot.ev (s : Shot) : Ev := (s.win, s.rect)
+
 structure St where
   tree : Tree := {}
   /-- `win->pen` by window id; `none` = `NULL`. -/
@@ -50,8 +60,8 @@ def rsSub (s : List Rect) (r : Rect) : Res (List Rect) :=
 /-! ### `_do_expose` -/
 
 /-- The `for(child = win->first_child; …)` loop of `_do_expose`; `recur` is `_do_expose` itself. -/
-def doChildren (t : Tree) (recur : Id → Rect → RB × List Ev → Res (RB × List Ev)) (rect : Rect) :
-    List Id → RB × List Ev → Res (RB × List Ev)
+def doChildren (t : Tree) (recur : Id → Rect → RB × List Shot → Res (RB × List Shot)) (rect : Rect) :
+    List Id → RB × List Shot → Res (RB × List Shot)
   | [], s => .ok s
   | c :: cs, s => do
     let cw ← get t c
@@ -65,17 +75,21 @@ def doChildren (t : Tree) (recur : Id → Rect → RB × List Ev → Res (RB × 
         | none => pure s
       doChildren t recur rect cs (s1.1.mask cw.rect, s1.2)
 
-/-- `_do_expose(win, rect, rb)`; the event list records the handler invocations in order. -/
+/-- `if(win->pen) tickit_renderbuffer_setpen(rb, win->pen);` -/
+def applyWinPen (pens : Array (Option Pen)) (win : Id) (rb : RB) : RB :=
+  match winPen pens win with
+  | some p => rb.setpen (some p)
+  | none => rb
+
+/-- `_do_expose(win, rect, rb)`; the list records the handler invocations in order. -/
 def doExpose (beh : Id → Rect → List DrawOp) (t : Tree) (pens : Array (Option Pen)) :
-    Nat → Id → Rect → RB × List Ev → Res (RB × List Ev)
+    Nat → Id → Rect → RB × List Shot → Res (RB × List Shot)
   | 0, _, _, _ => .ub "window tree too deep"
   | fuel + 1, win, rect, s => do
     let w ← get t win
-    let rb := match winPen pens win with
-      | some p => s.1.setpen (some p)
-      | none => s.1
+    let rb := applyWinPen pens win s.1
     let s' ← doChildren t (doExpose beh t pens fuel) rect w.children (rb, s.2)
-    pure (s'.1.run (beh win rect), s'.2 ++ [(win, rect)])
+    pure (s'.1.run (beh win rect), s'.2 ++ [⟨win, rect, s'.1⟩])
 
 /-! ### `tickit_window_flush` -/
 
@@ -88,14 +102,14 @@ def applyChanges (fuel : Nat) : Tree → List Req → Res Tree
 
 /-- The loop over the damage rectangles. -/
 def exposeRects (beh : Id → Rect → List DrawOp) (t : Tree) (pens : Array (Option Pen)) (fuel : Nat) :
-    List Rect → RB × List Ev → Res (RB × List Ev)
+    List Rect → RB × List Shot → Res (RB × List Shot)
   | [], s => .ok s
   | rect :: rest, s => do
     let s1 ← doExpose beh t pens fuel 0 rect ((s.1.save).clipTo rect, s.2)
     exposeRects beh t pens fuel rest (s1.1.restore, s1.2)
 
 /-- `tickit_window_flush(root)`: the new state and the expose events in order. -/
-def flush (beh : Id → Rect → List DrawOp) (st : St) : Res (St × List Ev) := do
+def flush (beh : Id → Rect → List DrawOp) (st : St) : Res (St × List Shot) := do
   let root ← get st.tree 0
   if root.parent.isSome then pure (st, [])
   else if !st.tree.root.needsLater then pure (st, [])
